@@ -189,6 +189,33 @@ def oracle_files(ck, rng):
                 for fl in fails:
                     ck.violation(what=f"{fmt} round trip: {fl}", inp={"format": fmt, "n": n, "angle_class": ["generic", "near-pi", "near-0", "mid"][kind], "precision": prec},
                                  key={"site": "roundtrip", "format": fmt, "symptom": fl.split(" ")[0]}, oracle="file_roundtrip", measured=fl)
+        # ---- saving reflects the current state: write, change the same object in place, write again ----
+        for it2 in range(3 if ck.tier == "quick" else 20):
+            n = int(rng.integers(1, 6))
+            m = Molecules(rng.normal(size=(n, 3)) * 10, Rotation.random(n, random_state=int(rng.integers(0, 2**31))), features={"i": list(range(n))})
+            _ = m.to_dataframe(); _ = m.rotvec(); _ = m.matrix()
+            f0 = os.path.join(d, "s0.parquet"); m.to_file(f0)
+            m.rotate_by(Rotation.random(random_state=int(rng.integers(0, 2**31))), copy=False)
+            m.translate(rng.normal(size=3), copy=False)
+            if it2 % 2:
+                m.rotate_by_rotvec_internal(rng.normal(size=3) * 0.5, copy=False)
+            for fmt in ("df", "parquet", "csv"):
+                ck.oracle_count("save_after_inplace_change", 1, 1)
+                try:
+                    if fmt == "df":
+                        back = Molecules.from_dataframe(m.to_dataframe())
+                    elif fmt == "parquet":
+                        f = os.path.join(d, "s1.parquet"); m.to_file(f); back = Molecules.from_file(f)
+                    else:
+                        f = os.path.join(d, "s1.csv"); m.to_csv(f, float_precision=6); back = Molecules.from_file(f)
+                    tolp, tolr = (1e-6, 2e-6) if fmt != "csv" else (1e-5, 1e-4)
+                    perr = float(np.abs(back.pos - m.pos).max()); rerr = float((back.rotator.inv() * m.rotator).magnitude().max())
+                    fl = None if perr <= tolp and rerr <= tolr else f"positions off by {perr:.3g}, orientations by {rerr:.3g} rad"
+                except Exception as e:  # noqa
+                    fl = f"raised {type(e).__name__}: {e}"
+                if fl:
+                    ck.violation(what=f"{fmt} written after in-place rotate/translate of an object that had been written before: {fl}", inp={"format": fmt, "n": n},
+                                 key={"site": "roundtrip-after-inplace", "format": fmt}, oracle="save_after_inplace_change", measured=fl)
         # ---- zero molecules with feature columns: columns and schema survive every format ----
         empty_feats = pl.DataFrame({"i": pl.Series("i", [], dtype=pl.Int64), "f": pl.Series("f", [], dtype=pl.Float64), "s": pl.Series("s", [], dtype=pl.Utf8)})
         full = Molecules(np.arange(6, dtype=float).reshape(2, 3), features={"i": [1, 2], "f": [0.5, 1.5], "s": ["a", "b"]})
